@@ -33,7 +33,8 @@ RULE = (
     "Each run fits one model (four kinds incl. unsupervised with label propagation, metric out of all 47, on-the-fly or"
     " pre-computed distances, k ranges, n_train 2-14) and executes a seeded history of 4-20 operations over 3 reusable"
     " paths: save (optionally with an injected open/write fault), load into a fresh model built with other constructor"
-    " arguments, re-save of a loaded generation, refit of the original on other data, restart (fresh interpreter, other"
+    " arguments, re-save of a loaded generation, refit / further use / label propagation of the original between saves"
+    " (15 % of the worlds train on float32, int64 or uint8 features), restart (fresh interpreter, other"
     " PYTHONHASHSEED and cwd, loads the file and predicts). Non-trivial: a load went into a model constructed with"
     " different arguments, or through a restart, or a fault fired before a later successful save. distinct = distinct"
     " (kind, metric, pre, op kinds and slots) sequences by 64-bit hash."
